@@ -882,6 +882,21 @@ func genEnt(r *vlib.R, fam int, pool *[]netip.Prefix) string {
 			case 3:
 				bits = base.Bits()
 			}
+			if r.Chance(1, 4) {
+				// a sibling on the other side of a machine-word sign bit: same
+				// upper bits, top bit of the first or (IPv6) of the ninth octet
+				// flipped, and a prefix long enough to keep that bit
+				at := 0
+				if fam == 6 && r.Chance(2, 3) {
+					at = 8
+				}
+				addr = base.Addr().AsSlice()
+				addr[at] ^= 0x80
+				min := at*8 + 1
+				if bits < min {
+					bits = min + r.Intn(width-min+1)
+				}
+			}
 		}
 	}
 	if addr == nil {
